@@ -153,6 +153,25 @@ pub fn run(tier: Tier) -> i32 {
         std::fs::write(std::path::Path::new(VERIF).join("findings/c01_repo_baseline.json"), serde_json::to_string_pretty(&now).unwrap()).unwrap();
     }
 
+    // fixed edge inputs inside the subset whose values sit at the borders of what the emitted code's
+    // types can hold: if the generator accepts them the output has to compile
+    let edges = edge_inputs();
+    let esets: Vec<crate::zeep::FileSet> = edges.iter().map(|e| e.1.clone()).collect();
+    let eouts = crate::worker::run_all(&esets, 4);
+    let ecomps = pipeline::compile_all(&ex, &scratch, &eouts, &|_| String::new());
+    for (i, (label, fs)) in edges.iter().enumerate() {
+        ev.case(&format!("{fs:?}"), true);
+        ev.class("input.edge");
+        if let (Outcome::Ok { .. }, Some(c)) = (&eouts[i], &ecomps[i]) {
+            if !c.ok && !c.timed_out {
+                let sig = format!("C01 edge:{label}:{}", compile_signature(c));
+                if reported.insert(sig.clone()) {
+                    route_failure(&mut ev, &findings, "uncompilable-output", &sig, json!({"fileset": fs, "expect_structs": []}));
+                }
+            }
+        }
+    }
+
     // open findings of this property: replay the stored input with the gate open
     replay_open_findings(&mut ev, &findings, "C01", &|raw, prof| judge_one(&ex, &scratch, raw, prof).map(|s| format!("C01 {s}")));
     let _ = std::fs::remove_dir_all(&scratch);
@@ -281,4 +300,46 @@ pub fn show(file: &str) -> i32 {
     }
     let _ = std::fs::remove_dir_all(&scratch);
     0
+}
+
+/// Small hand-written schemas whose facet values and occurrence bounds lie at or beyond the limits of
+/// the integer types the emitted code uses.
+fn edge_inputs() -> Vec<(String, crate::zeep::FileSet)> {
+    let mut v = vec![];
+    let facet = |base: &str, facet: &str, value: &str| {
+        format!(
+            "<xs:simpleType name=\"T{}{}{}\"><xs:restriction base=\"xs:{base}\"><xs:{facet} value=\"{value}\"/></xs:restriction></xs:simpleType>",
+            base, facet, value.replace('-', "m")
+        )
+    };
+    let mut types = String::new();
+    for (base, values) in [
+        ("long", vec!["2147483647", "2147483648", "-2147483649", "9999999999", "9223372036854775807", "-9223372036854775808"]),
+        ("unsignedInt", vec!["4294967295", "4294967296"]),
+        ("unsignedLong", vec!["18446744073709551615", "18446744073709551616"]),
+        ("integer", vec!["99999999999999999999999999", "-99999999999999999999999999"]),
+    ] {
+        for value in values {
+            for f in ["minInclusive", "maxInclusive", "minExclusive", "maxExclusive"] {
+                types += &facet(base, f, value);
+            }
+        }
+    }
+    for l in ["4294967296", "18446744073709551616", "99999999999999999999"] {
+        types += &format!("<xs:simpleType name=\"L{l}\"><xs:restriction base=\"xs:string\"><xs:maxLength value=\"{l}\"/><xs:minLength value=\"{l}\"/><xs:length value=\"{l}\"/></xs:restriction></xs:simpleType>");
+    }
+    v.push((
+        "facet-bounds-beyond-32-and-64-bits".to_string(),
+        crate::zeep::FileSet::single("edge.xsd", &format!("<xs:schema xmlns:xs=\"http://www.w3.org/2001/XMLSchema\" xmlns:t=\"urn:edge\" targetNamespace=\"urn:edge\" elementFormDefault=\"qualified\">{types}</xs:schema>")),
+    ));
+    let occ: String = ["4294967295", "4294967296", "18446744073709551615", "18446744073709551616", "99999999999999999999999"]
+        .iter()
+        .enumerate()
+        .map(|(i, n)| format!("<xs:element name=\"e{i}\" type=\"xs:string\" minOccurs=\"0\" maxOccurs=\"{n}\"/>"))
+        .collect();
+    v.push((
+        "occurrence-bounds-beyond-32-and-64-bits".to_string(),
+        crate::zeep::FileSet::single("occ.xsd", &format!("<xs:schema xmlns:xs=\"http://www.w3.org/2001/XMLSchema\" xmlns:t=\"urn:edge\" targetNamespace=\"urn:edge\" elementFormDefault=\"qualified\"><xs:complexType name=\"Many\"><xs:sequence>{occ}</xs:sequence></xs:complexType></xs:schema>")),
+    ));
+    v
 }
